@@ -20,6 +20,13 @@ use sway_features::ExperimentalFeatures;
 
 pub const STD_PATH: &str = "/repo/sway-lib-std";
 
+/// The standard library the generated packages depend on: /repo/sway-lib-std. For calibrating a
+/// monitor against a deliberately broken std (a mutated COPY, never /repo itself) the path can
+/// be redirected with SWVERIF_STD_PATH; registered checks never set it.
+pub fn std_path() -> String {
+    std::env::var("SWVERIF_STD_PATH").unwrap_or_else(|_| STD_PATH.to_string())
+}
+
 #[derive(Clone, Copy, Debug, PartialEq, Eq, Serialize, Deserialize)]
 pub enum Profile {
     Debug,
@@ -49,7 +56,7 @@ pub fn write_pkg(dir: &Path, name: &str, src: &str, with_std: bool) -> Result<()
 
 pub fn write_pkg_ext(dir: &Path, name: &str, src: &str, with_std: bool, entry: &str, extra_manifest: &str) -> Result<()> {
     std::fs::create_dir_all(dir.join("src"))?;
-    let deps = if with_std { format!("std = {{ path = \"{STD_PATH}\" }}\n") } else { String::new() };
+    let deps = if with_std { format!("std = {{ path = \"{}\" }}\n", std_path()) } else { String::new() };
     let manifest = format!(
         "[project]\nauthors = [\"verif\"]\nentry = \"{entry}\"\nlicense = \"Apache-2.0\"\nname = \"{name}\"\nimplicit-std = false\n{extra_manifest}\n[dependencies]\n{deps}"
     );
@@ -204,6 +211,14 @@ impl Amortised {
         Ok((errors, produced))
     }
 
+    /// Compile std for both profiles now (so that the cost is not attributed to the first case).
+    pub fn warm(&mut self) -> Result<()> {
+        for p in Profile::BOTH {
+            self.std_cache(p)?;
+        }
+        Ok(())
+    }
+
     /// directory of the most recently written package
     pub fn last_dir(&self) -> PathBuf {
         self.last.clone()
@@ -324,6 +339,69 @@ pub fn observe(receipts: &[fuel_tx::Receipt]) -> Observation {
         }
     }
     Observation { outcome: outcome.unwrap_or(Outcome::VmError("no terminal receipt".into())), logs, gas_used }
+}
+
+// ------------------------------------------------------------------------------------------
+// forc test flow (unit tests inside a package; contracts are deployed by forc-test itself)
+
+#[derive(Clone, Debug)]
+pub struct UnitTestOutcome {
+    pub name: String,
+    /// what forc test reports
+    pub passed: bool,
+    /// the VM outcome of the test body
+    pub outcome: Outcome,
+    /// (contract id of the emitter as hex: all zeroes for the test script itself, rb, data)
+    pub logs: Vec<(String, u64, Vec<u8>)>,
+    pub gas_used: u64,
+}
+
+pub struct UnitTestRun {
+    pub tests: Vec<UnitTestOutcome>,
+    pub built: Box<BuiltPackage>,
+}
+
+/// Build the package at `dir` with tests and run them with the real forc-test machinery.
+/// `runners`: number of parallel test runners; `filter`: optional (phrase, exact) test filter.
+pub fn run_unit_tests(dir: &Path, profile: Profile, runners: usize, filter: Option<(&str, bool)>) -> Result<UnitTestRun> {
+    let opts = forc_test::TestOpts {
+        pkg: PkgOpts { path: Some(dir.to_string_lossy().to_string()), offline: true, terse: true, ..Default::default() },
+        release: profile == Profile::Release,
+        build_profile: profile.name().to_string(),
+        no_output: true,
+        ..Default::default()
+    };
+    let built = forc_test::build(opts)?;
+    let gas = forc_test::GasCostsSource::BuiltIn.provide_gas_costs()?;
+    let filter = filter.map(|(p, exact)| forc_test::TestFilter { filter_phrase: p, exact_match: exact });
+    let tested = built.run(forc_test::TestRunnerCount::Manual(runners.max(1)), filter, gas, forc_test::TestGasLimit::default())?;
+    let pkg = match tested {
+        forc_test::Tested::Package(p) => *p,
+        forc_test::Tested::Workspace(_) => bail!("unexpected workspace"),
+    };
+    let mut tests = vec![];
+    for t in &pkg.tests {
+        let obs = observe(&t.logs);
+        let mut logs = vec![];
+        for r in &t.logs {
+            match r {
+                fuel_tx::Receipt::LogData { id, rb, data, .. } => logs.push((hex::encode(id.as_ref()), *rb, data.as_ref().map(|d| d.to_vec()).unwrap_or_default())),
+                fuel_tx::Receipt::Log { id, ra, rb, .. } => logs.push((hex::encode(id.as_ref()), *rb, ra.to_be_bytes().to_vec())),
+                _ => {}
+            }
+        }
+        let outcome = match t.state {
+            fuel_vm::state::ProgramState::Return(v) => Outcome::Return(v),
+            fuel_vm::state::ProgramState::ReturnData(_) => obs.outcome.clone(),
+            fuel_vm::state::ProgramState::Revert(c) => match obs.outcome {
+                Outcome::Panic(ref p) => Outcome::Panic(p.clone()),
+                _ => Outcome::Revert(c),
+            },
+            _ => Outcome::VmError("suspended".into()),
+        };
+        tests.push(UnitTestOutcome { name: t.name.clone(), passed: t.passed(), outcome, logs, gas_used: t.gas_used });
+    }
+    Ok(UnitTestRun { tests, built: pkg.built })
 }
 
 /// Silence forc's progress output inside workers (it goes to the shard log otherwise).
